@@ -583,6 +583,15 @@ func c04Source(t c04Type) string {
 		w("func d_mapclone2_%d() any { m := maps.Clone(map[%s]%s{1: 1}); m[1] = %s; return m[1] }", ki, T, T, lit)
 		w("func d_slicesdelete_%d() any { s := slices.Delete([]%s{1, 1, 1}, 0, 1); s[0] = 1; s = append(s, %s); return s[2] }", ki, T, lit)
 		w("func d_sorted_%d() any { s := []%s{1, 1}; slices.Sort(s); s[0] = %s; return s[0] }", ki, T, lit)
+		// an absent key reads as the zero value of the element type, whatever the key type is
+		for _, kt := range c04Types {
+			if kt.name == t.name {
+				continue
+			}
+			w("func d_miss_%s_%d() any { m := map[%s]%s{}; m[3] += %s; return m[3] }", kt.name, ki, kt.name, T, lit)
+			w("func d_missok_%s_%d() any { m := map[%s]%s{1: 1}; v, ok := m[5]; if ok { return 0 }; v += %s; return v }", kt.name, ki, kt.name, T, lit)
+			w("func d_missinc_%s_%d() any { m := map[%s]%s{}; m[2]++; m[2]--; return m[2] + %s }", kt.name, ki, kt.name, T, lit)
+		}
 	}
 	return sb.String()
 }
@@ -860,7 +869,12 @@ func (w *c04Worker) decls() {
 	for ki, k := range c04Consts(t) {
 		k = c04ConstVal(k)
 		for _, n := range []string{"var", "conv", "param", "ret", "field", "fieldset", "elem", "elemset", "map", "mapset", "append", "assign", "global", "multi",
-			"resliceset", "resliceapp", "reslice2", "variadic", "variadic2", "mparam", "mvariadic", "ret2", "ret2b", "two", "funclit", "nested", "mapslice", "fieldslice", "fieldmap", "appendmany", "swap", "ifinit", "switch", "range", "mapkeys", "mapkeysset", "mapclone", "mapclone2", "slicesdelete", "sorted"} {
+			"resliceset", "resliceapp", "reslice2", "variadic", "variadic2", "mparam", "mvariadic", "ret2", "ret2b", "two", "funclit", "nested", "mapslice", "fieldslice", "fieldmap", "appendmany", "swap", "ifinit", "switch", "range", "mapkeys", "mapkeysset", "mapclone", "mapclone2", "slicesdelete", "sorted",
+			"miss_int8", "miss_uint8", "miss_int32", "miss_uint32", "miss_float64", "missok_int8", "missok_uint8", "missok_int32", "missok_uint32", "missok_float64",
+			"missinc_int8", "missinc_uint8", "missinc_int32", "missinc_uint32", "missinc_float64"} {
+			if strings.HasPrefix(n, "miss") && strings.HasSuffix(n, "_"+t.name) {
+				continue // the key type differs from the element type in these
+			}
 			w.call(fmt.Sprintf("d_%s_%d", n, ki), t, c04Want{num: k}, []float64{k})
 		}
 		// (after calls that left values of type T in the frame's slots)
